@@ -346,13 +346,18 @@ Definition drun (c : cfg) (ops : list dop) : dstate := fold_left dnext ops (dini
 (* Store keys and subscriber ids as the code writes them.
      allocationKey(id) = fmt.Sprintf("/allocation/%s/%s", poolID, id)
      keyPrefix()       = fmt.Sprintf("/allocation/%s/", poolID)
-     handleRemoteChange: subscriberID := key[len(da.keyPrefix()):]      (used for deletes; for puts the
-                         code uses the SubscriberID field of the JSON value)
+     handleRemoteChange: subscriberID := key[len(da.keyPrefix()):]
+     loadAllocations:    subscriberID := strings.TrimPrefix(kv.Key, da.keyPrefix())
+   Since fix e669782 the subscriber of a record is ALWAYS the one its key names (puts, deletes, reload,
+   Renew's write-back); the SubscriberID copy inside the JSON value is not used: encoding/json rewrites every
+   byte of a string that is not valid UTF-8 to U+FFFD, so that copy is not the id for binary circuit ids
+   (before the fix "\xff" was reloaded as "\xef\xbf\xbd": finding F12e).
    Ids are arbitrary byte strings ('/', "..", empty segments, ids that are suffixes of each other, an id
-   equal to the key prefix).  [wop] is the op alphabet the harness drives: remote events carry the KEY the
-   store delivered; [wtrans] derives the subscriber exactly as the code does and looks it up in the
-   case's table of subscriber ids ([intern]); local calls pass through.  An event whose id is not in the
-   table, or whose value names another subscriber than its key, is outside the Model (no-op; not driven). *)
+   equal to the key prefix, invalid UTF-8).  [wop] is the op alphabet the harness drives: remote events carry
+   the KEY the store delivered and the id found inside the value ([vid], ignored by the code); [wtrans]
+   derives the subscriber exactly as the code does and looks it up in the case's table of subscriber ids
+   ([intern]); local calls pass through.  An event whose key names no id of the table is outside the Model
+   (no-op; not driven). *)
 Definition alloc_lit : bytes := [47; 97; 108; 108; 111; 99; 97; 116; 105; 111; 110; 47].   (* "/allocation/" *)
 Definition key_prefix (pool : bytes) : bytes := alloc_lit ++ pool ++ [47].
 Definition key_of_id (pool id : bytes) : bytes := alloc_lit ++ pool ++ [47] ++ id.
@@ -380,17 +385,11 @@ Definition wtrans (w : wire) (o : wop) : option dop :=
   match o with
   | WLocal o => Some o
   | WRemoteDel key => match holder_of_key w key with Some h => Some (DRemoteDel h) | None => None end
-  | WRemotePut key vid a pl ep =>
-      match holder_of_key w key, intern (w_names w) vid with
-      | Some h, Some h' => if h =? h' then Some (DRemotePut h a pl ep) else None
-      | _, _ => None
-      end
+  | WRemotePut key _ a pl ep =>
+      match holder_of_key w key with Some h => Some (DRemotePut h a pl ep) | None => None end
   | WEcho key None => match holder_of_key w key with Some h => Some (DEcho h None) | None => None end
-  | WEcho key (Some (vid, r)) =>
-      match holder_of_key w key, intern (w_names w) vid with
-      | Some h, Some h' => if h =? h' then Some (DEcho h (Some r)) else None
-      | _, _ => None
-      end
+  | WEcho key (Some (_, r)) =>
+      match holder_of_key w key with Some h => Some (DEcho h (Some r)) | None => None end
   end.
 Definition wstep (w : wire) (s : dstate) (o : wop) : dstate * dout * list N :=
   match wtrans w o with Some d => dstep s d | None => (s, mkout s ROk, []) end.
